@@ -35,6 +35,7 @@ PROP = {  # subject prefix -> (properties, what failed before the repair)
  "repeated or unordered positional masks": ("C03 C05", "positional masks with repeats/unordered on chunked keys lost multiplicity and order"),
  "groupby_fast(...).cumcount() numbers": ("C17", "facade cumcount passed the values as mask= (rows with a zero/false value were not counted)"),
  "count(transform=True) on chunked keys": ("C03 C07", "count(transform=True) on chunk-factorized keys returned booleans instead of counts"),
+ "the time-weighted ungrouped EMA starts": ("C10", "ema(values with a leading NaN, halflife=, times=) returned NaN for the whole series"),
  "apply returns an empty result": ("C05 C09", "median/apply with nothing selected raised IndexError (was known finding K2)"),
 }
 log = subprocess.run(["git", "-C", "/repo", "log", "--format=%h %s", "be63ad5..HEAD"], stdout=subprocess.PIPE).stdout.decode().splitlines()
